@@ -96,6 +96,11 @@ pub assume_specification[usize::next_power_of_two](n: usize) -> (r: usize)
 #[verifier::external_body] #[verifier::reject_recursive_types(K)]
 pub struct BTreeSet<K> { _k: core::marker::PhantomData<K> }
 impl<K> View for BTreeSet<K> { type V = Set<K>; uninterp spec fn view(&self) -> Set<K>; }
+impl<K> BTreeSet<K> {
+    #[verifier::external_body] pub fn new() -> (r: Self) ensures r@ == Set::<K>::empty() { unimplemented!() }
+    #[verifier::external_body] pub fn insert(&mut self, k: K) -> (b: bool) ensures final(self)@ == old(self)@.insert(k), b == !old(self)@.contains(k) { unimplemented!() }
+    #[verifier::external_body] pub fn contains(&self, k: &K) -> (b: bool) ensures b == self@.contains(*k) { unimplemented!() }
+}
 // `for x in &set`: the elements, each once (in key order; the order is not exposed)
 #[verifier::external_body] pub fn btree_set_to_vec<K>(s: &BTreeSet<K>) -> (r: Vec<&K>)
     ensures forall|i: int| 0 <= i < r@.len() ==> s@.contains(*(#[trigger] r@[i])), forall|k: K| s@.contains(k) ==> exists|i: int| 0 <= i < r@.len() && *(#[trigger] r@[i]) == k,
